@@ -47,6 +47,68 @@ def _is_this_like(n):
 FX = None      # set by simlib.load_facts: the fact base, for cross-function expansion of expression helpers
 
 
+SIZE_TYPES = ('std::size_t', 'size_t', 'unsigned long')
+
+
+def completion_count_param(fn):
+    """The byte-count parameter of an I/O completion `(error_code const&, std::size_t)`, whatever it is called."""
+    ps = getattr(fn, 'params', None) or []
+    if len(ps) != 2:
+        return None
+    try:
+        tys = [fn.ty(p['t']).replace('const ', '').replace('&', '').strip() for p in ps]
+    except Exception:
+        return None
+    if tys[0] in ('boost::system::error_code', 'error_code') and tys[1] in SIZE_TYPES and ps[1].get('name'):
+        return ps[1]
+    return None
+
+
+def is_completion_count(fn, did):
+    p = completion_count_param(fn)
+    return p is not None and p.get('did') == did
+
+
+def alias_local(fn, name, init_re=None, pred=None, multi=False):
+    """Bind the canonical name `name` to the one local of fn whose initialiser matches (regex on its rendering, or
+    pred(var)), so that rules keep reading `name` when a maintainer renames the variable. Returns the decl var (or
+    None when no unique candidate exists - the caller reports the anchor as vanished)."""
+    import re as _re
+    cands = []
+    for n in fn.all_nodes():
+        if n['k'] != 'decl':
+            continue
+        for v in n['vars']:
+            if v.get('init') is None:
+                continue
+            if init_re is not None and not _re.search(init_re, render(fn, v['init'])):
+                continue
+            if pred is not None and not pred(v):
+                continue
+            cands.append(v)
+    exact = [v for v in cands if v.get('name') == name]
+    if exact:
+        return exact[0]
+    if len(cands) == 1 or (multi and cands and len({v.get('name') for v in cands}) == 1):
+        if not hasattr(fn, 'alias') or fn.alias is None:
+            fn.alias = {}
+        for v in cands:
+            fn.alias[v['did']] = name
+        return cands[0]
+    return None
+
+
+def local_var(fn, name):
+    """decl var called `name`, by its own name or by an alias bound with alias_local()."""
+    al = getattr(fn, 'alias', None) or {}
+    for n in fn.all_nodes():
+        if n['k'] == 'decl':
+            for v in n['vars']:
+                if al.get(v.get('did')) == name or (v.get('name') == name and v.get('did') not in al):
+                    return v
+    return None
+
+
 def render(fn, n, depth=0, names=None):
     """Readable, normalised rendering of an expression (casts and wrappers
     already stripped by the extractor; remaining implicit casts are dropped)."""
@@ -83,6 +145,11 @@ def render(fn, n, depth=0, names=None):
                 return 'p'
             if ty in ('boost::system::error_code', 'error_code') and n['dk'] == 'param':
                 return 'ec'
+            if n['dk'] == 'param' and ty in SIZE_TYPES and is_completion_count(fn, n.get('did')):
+                return 'bytes_transferred'
+            al = getattr(fn, 'alias', None)
+            if al and n.get('did') in al:
+                return al[n['did']]
             return n['name'].split('::')[-1]
         return n['name']
     if k == 'member':
